@@ -31,8 +31,13 @@ class Sink(object):
         self.b += d
 
 
+_turn = [0]
+
+
 def impl_read(cls, data):
-    s = CountingStream(data)
+    # the stream hands out bytes objects, or - one call in three - bytearrays (a reader slicing its mutable receive buffer)
+    _turn[0] += 1
+    s = CountingStream(bytearray(data) if _turn[0] % 3 == 0 else data)
     try:
         v = cls.read(s)
         return ['ok', v, s.pos]
